@@ -165,6 +165,8 @@ def mk_kwargs(e):
                   mime_type=e.get("mt"))
     if "runnable" in e:
         kw["runnable"] = e["runnable"]
+    if e.get("eof_only"):
+        kw["eof"] = True        # (a field like any other: an event that closes nothing in particular is passed on as it is)
     return kw
 
 
@@ -460,6 +462,8 @@ def random_event(rng):
         # (a file may be named "" - only None means "no file")
         e.update(fn=rng.choice(["f", "f", ""]), fb=rng.choice(["", "78"]), eof=rng.random() < 0.5,
                  mt=rng.choice([None, "text/plain"]))
+    elif rng.random() < 0.1:
+        e["eof_only"] = True
     if rng.random() < 0.25:
         e["runnable"] = False   # e.g. subtest reports
     if rng.random() < 0.15:
